@@ -81,6 +81,12 @@ def is_ptr_ct(ct):
     return ct.endswith('*') or ct.endswith('*const') or ct.endswith('* const')
 
 
+def raw_ptr_param(ct):
+    """parameter type that is a raw pointer, by value or by (const) reference"""
+    t = (ct or '').strip()
+    return is_ptr_ct(t.rstrip('&').strip())
+
+
 def handle_type(ct):
     """canonical IntrusivePtr<...> record type named by a (reference to a) handle type, else None"""
     t = (ct or '').strip()
@@ -395,9 +401,19 @@ class RefInterp(ObjInterp):
     def touch_handle(self, loc, n, st, fr):
         """access to the pointer member of a handle object that lives inside a pointee (scenario `$in:<handle>`): once that
         pointee may have been destroyed the handle object itself is gone"""
-        if loc[0] != 'h' or self._cur is None:
+        if self._cur is None:
             return
         d = thaw(st)
+        if loc[0] == 'v':
+            owner = d.get('$in:v:' + str(loc[1]))
+            if owner and d.get('!' + owner):
+                self.report('source-destroyed', 'the pointer argument, received by reference, is read after the operation released what may be '
+                            'the last count on the object that contains the referenced pointer (e.g. head = head->next.ptr): the reference '
+                            'dangles, the value read comes from a destroyed object (events so far %s); copy the argument before '
+                            'releasing the old pointee, or take it by value' % (list(d.get('$ev', ())),), n, fr, st)
+            return
+        if loc[0] != 'h':
+            return
         owner = d.get('$in:' + str(loc[1]))
         if owner and d.get('!' + owner):
             self.report('source-destroyed', 'the pointer member of `%s` is accessed after the operation released what may be the last '
@@ -484,7 +500,7 @@ class RefInterp(ObjInterp):
                     self.und('handle argument of %s not understood at %s' % (callee['q'], tu.loc(n)))
                     return [st]
                 env[p['id']] = o
-            elif is_ptr_ct(p['ct']):
+            elif raw_ptr_param(p['ct']):
                 v = self.pval(a, st, fr)
                 if v is None or isinstance(v, tuple):
                     self.und('pointer argument of %s not understood at %s' % (callee['q'], tu.loc(n)))
@@ -659,7 +675,7 @@ def scenarios(tu, f):
     is_member = f.get('rec') == IP
     ctor = bool(f.get('ctor'))
     hparams = [(p, handle_type(p['ct'])) for p in f['params'] if handle_type(p['ct'])]
-    rparams = [p for p in f['params'] if not handle_type(p['ct']) and is_ptr_ct(p['ct'])]
+    rparams = [p for p in f['params'] if not handle_type(p['ct']) and raw_ptr_param(p['ct'])]
     out = []
     this_vals = ['undef'] if ctor else ['null', 'A']
     if not is_member:
@@ -721,6 +737,12 @@ def scenarios(tu, f):
                         d2 = dict(d)
                         d2['$in:' + nm] = 'A'
                         extra.append((env, d2, hs, lab + ['&%s inside *this->ptr' % nm]))
+                for p in rparams:
+                    # a raw pointer received by reference may itself be stored inside the old pointee (head = head->next.ptr)
+                    if p['ct'].rstrip().endswith('&') and d.get('v:' + p['id']) in ('null', 'B'):
+                        d2 = dict(d)
+                        d2['$in:v:' + p['id']] = 'A'
+                        extra.append((env, d2, hs, lab + ['&%s inside *this->ptr' % (p['name'] or 'ptr')]))
             combos = combos + extra
         for env, d, hs, lab in combos:
             for o in OBJS:
@@ -736,7 +758,7 @@ def source_of(f, env, d0):
     for p in f['params']:
         if handle_type(p['ct']):
             return ('h', env[p['id']])
-        if is_ptr_ct(p['ct']):
+        if raw_ptr_param(p['ct']):
             return ('v', 'v:' + p['id'])
     return None
 
@@ -807,6 +829,9 @@ def touches(tu, f, field_ids, counter_ids):
     return t
 
 
+CONFIG_TAG = ['']      # suffix of instance labels while a non-default build configuration is analysed
+
+
 def check_effects(ctx, tu, seen_patterns):
     R1, R3 = 'R-C08-1', 'R-C08-3'
     ctx.describe(R1, 'per-operation reference accounting: null-guarded refInc/refDec, no release of an unowned count, nothing '
@@ -834,7 +859,7 @@ def check_effects(ctx, tu, seen_patterns):
         if f['dep'] or tu.cfg(f) is None or not it.is_own_fn(f):
             continue
         role = role_of(f)
-        inst0 = '%s %s' % (f['q'].replace('rkcommon::memory::', ''), f['fty'].replace('rkcommon::memory::', ''))
+        inst0 = '%s %s%s' % (f['q'].replace('rkcommon::memory::', ''), f['fty'].replace('rkcommon::memory::', ''), CONFIG_TAG[0])
         file = norm_file(tu.fn_file(f))
         pname = pattern_name(tu, f)
         if f.get('pat'):
@@ -1615,6 +1640,15 @@ def run(ctx):
         seen_u = set()
         check_effects(ctx, tu_u, seen_u)
         check_mixed_compare(ctx, tu_u, 4)
+    # the release build: the front end normally keeps assert() alive (-UNDEBUG); everything the property needs must also hold
+    # with -DNDEBUG, where the argument of every assert() disappears (a refInc() inside an assert is gone)
+    CONFIG_TAG[0] = ' {built with -DNDEBUG}'
+    try:
+        tu_nd = ctx.front.parse('drivers/c08_refcount.cpp', 'TBB', extra=('-DNDEBUG',))
+        check_effects(ctx, tu_nd, set())
+        check_counter(ctx, tu_nd)
+    finally:
+        CONFIG_TAG[0] = ''
     if ctx.tier == 'thorough':
         tu2 = ctx.front.parse('drivers/c08_refcount.cpp', 'DEBUG', std='gnu++17')
         analyse(ctx, tu2, [])
